@@ -62,6 +62,32 @@ Fold2(s) == s + (s \div W16)                          \* s = s + s>>16
 MechValue(b) == 65535 - (Fold2(Fold1(MechAcc(b))) % W16)   \* ^uint16(s)
 MechStored(b) == <<MechValue(b) % 256, MechValue(b) \div 256>>   \* p[10] = byte(v); p[11] = byte(v>>8)
 
+\* ------------------------------------------------------------------ the uint32 accumulator with its wrap-around
+\* TLC integers are 32-bit signed, so the accumulator is kept as two 16-bit halves; `wraps` counts how often the real
+\* uint32 overflowed (each overflow silently drops 2^32 = 1 (mod 0xffff) from the one's-complement sum).
+AccStep(a, w) ==
+  LET lo2 == a.lo + w
+      hi2 == a.hi + (lo2 \div W16)
+  IN  [hi |-> hi2 % W16, lo |-> lo2 % W16, wraps |-> a.wraps + (hi2 \div W16)]
+Acc32(b) ==
+  LET a == FoldLeft(LAMBDA s, j : AccStep(s, b[2*j] * 256 + b[2*j-1]), [hi |-> 0, lo |-> 0, wraps |-> 0],
+                    [j \in 1..(Len(b) \div 2) |-> j])
+  IN  IF Len(b) % 2 = 1 THEN AccStep(a, b[Len(b)]) ELSE a
+Mech32Of(a) == LET f1 == a.hi + a.lo                     \* s>>16 + s&0xffff
+                   f2 == f1 + (f1 \div W16)              \* s + s>>16
+               IN  65535 - (f2 % W16)
+Mech32Value(b)  == Mech32Of(Acc32(b))
+Mech32Stored(b) == <<Mech32Value(b) % 256, Mech32Value(b) \div 256>>
+\* The library as written is RFC 1071 exactly on the inputs whose accumulation never overflows 32 bits; on the others
+\* its little-endian sum is short by the number of overflows (named deviation KF_AccumulatorWrap: needs more than
+\* 65537 words, i.e. more than 131074 bytes).
+WrapLemma(b) ==
+  LET a == Acc32(b)
+      m == 65535 - Mech32Of(a)          \* the library's folded little-endian sum
+      t == Swap(Sum(b))                 \* the true sum read little-endian (RFC 1071 byte order independence)
+  IN  /\ (a.wraps = 0) <=> (Mech32Stored(b) = Stored(b))
+      /\ (a.hi + a.lo > 0 /\ t > 0) => Add1c(m, a.wraps) = t
+
 \* ------------------------------------------------------------------ how many folding steps a sum needs
 \* the unfolded sum of the big-endian words: what a wide accumulator holds before any carry is folded back
 USum(b) == FoldLeft(LAMBDA a, w : a + w, 0, Words(b))
